@@ -33,10 +33,39 @@ package modfile
 //@   ensures result.Token == (if result.InBlock then tokens[1:] else tokens)
 //@   props C15 C08 C16
 
+//@ # statement-list compaction.  Verified: no crash on a well-formed statement list, and every top-level
+//@ # line statement of the result is marked as not in a block (so its tokens start with the verb) - in
+//@ # particular the line kept when a one-line block collapses (its identity as *Line is preserved).
+//@ spec macro ISLINE(e Expr) bool = typeof(e) == typeid("*Line")
+//@ spec macro ISBLOCK(e Expr) bool = typeof(e) == typeid("*LineBlock")
+//@ spec macro STMT_OK(e Expr) bool =
+//@     (ISLINE(e) ==> ifaceptr(e) != 0 && !ifaceptr(e, "*Line").InBlock)
+//@     && (ISBLOCK(e) ==> ifaceptr(e) != 0 && (forall j int :: 0 <= j && j < len(ifaceptr(e, "*LineBlock").Line) ==> ifaceptr(e, "*LineBlock").Line[j] != nil))
+//@ func commentsAdd
+//@   allocates
+//@   modifies []Comment
+//@   trusted "append onto a capacity-limited slice: result is a fresh slice; contents not specified here"
+//@   props C15 C08 C16
+//@ func stringsAdd
+//@   allocates
+//@   modifies []string
+//@   trusted "append onto a capacity-limited slice: result is a fresh slice; contents not specified here"
+//@   props C15 C08 C16
 //@ func (*FileSyntax).Cleanup
-//@   trusted "statement-list compaction; touches only syntax nodes"
+//@   requires x != nil && (forall k int :: 0 <= k && k < len(x.Stmt) ==> STMT_OK(x.Stmt[k]))
 //@   modifies FileSyntax.Stmt, []Expr, LineBlock.Line, []*Line, Line.Token, Line.InBlock, Comments.Before, Comments.Suffix, Comments.After, Line.Start, Line.End, []string, []Comment
 //@   allocates
+//@   ensures [C15, C08] top_lines_unblocked: forall k int :: 0 <= k && k < len(x.Stmt) ==> STMT_OK(x.Stmt[k])
+//@   loop 0:
+//@     invariant 0 - 1 <= @idx && @idx < len(x.Stmt) && 0 <= w && w <= @idx + 1 && x.Stmt == pre(x.Stmt)
+//@     invariant forall k int :: 0 <= k && k < len(x.Stmt) ==> STMT_OK(x.Stmt[k])
+//@     decreases len(x.Stmt) - @idx
+//@   loop 1:
+//@     invariant 0 - 1 <= @idx && 0 <= ww && ww <= @idx + 1 && 0 <= w && w < len(x.Stmt) && x.Stmt == pre(x.Stmt)
+//@     invariant stmt != nil && @idx < len(stmt.Line) && stmt.Line == pre(stmt.Line)
+//@     invariant forall j int :: 0 <= j && j < len(stmt.Line) ==> stmt.Line[j] != nil
+//@     invariant forall k int :: 0 <= k && k < len(x.Stmt) ==> STMT_OK(x.Stmt[k])
+//@     decreases len(stmt.Line) - @idx
 //@   props C15 C08 C16
 
 //@ # ---------- no cleared placeholder entries after Cleanup (C15) ----------
@@ -55,7 +84,7 @@ package modfile
 //@ spec macro CLEAN_TOOL(f *File) bool = forall i int :: 0 <= i && i < len(f.Tool) ==> f.Tool[i] != nil && f.Tool[i].Path != ""
 
 //@ func (*File).Cleanup
-//@   requires f != nil && f.Syntax != nil && NONNIL_REQ(f)
+//@   requires f != nil && f.Syntax != nil && NONNIL_REQ(f) && (forall k int :: 0 <= k && k < len(f.Syntax.Stmt) ==> STMT_OK(f.Syntax.Stmt[k]))
 //@   modifies File.Godebug, File.Require, File.Exclude, File.Replace, File.Retract, File.Tool, []*Godebug, []*Require, []*Exclude, []*Replace, []*Retract, []*Tool
 //@   modifies FileSyntax.Stmt, []Expr, LineBlock.Line, []*Line, Line.Token, Line.InBlock, Comments.Before, Comments.Suffix, Comments.After, Line.Start, Line.End, []string, []Comment
 //@   ensures [C15] clean_godebug: CLEAN_GODEBUG(f)
@@ -105,7 +134,7 @@ package modfile
 //@     && (forall i int :: 0 <= i && i < len(f.Replace) ==> f.Replace[i] != nil)
 
 //@ func (*WorkFile).Cleanup
-//@   requires f != nil && f.Syntax != nil && NONNILW(f)
+//@   requires f != nil && f.Syntax != nil && NONNILW(f) && (forall k int :: 0 <= k && k < len(f.Syntax.Stmt) ==> STMT_OK(f.Syntax.Stmt[k]))
 //@   modifies WorkFile.Godebug, WorkFile.Use, WorkFile.Replace, []*Godebug, []*Use, []*Replace
 //@   modifies FileSyntax.Stmt, []Expr, LineBlock.Line, []*Line, Line.Token, Line.InBlock, Comments.Before, Comments.Suffix, Comments.After, Line.Start, Line.End, []string, []Comment
 //@   ensures [C15] clean_use: CLEANW_USE(f)
